@@ -69,7 +69,7 @@ func bindShouldSucceed(users []*gldap.Entry, anon bool, dn, pw string) bool {
 var vSmall bool
 
 func H_TD_C19_bind()  { vSmall = true; vBind(2) }
-func H_TD_C19_bind3() { vBind(3) }
+func H_TD_C19_bind3() { vSmall = true; vBind(3) } // three users: the first with the full shape
 
 func vBind(maxUsers int) {
 	users := vUsers(maxUsers)
